@@ -261,7 +261,7 @@ type scenario struct {
 }
 
 var terminators = []string{"peer-close", "stream-error", "handler-error", "deadline", "transport-eof"}
-var forced = []string{"X1a", "X1b", "X2", "X3", "X4", "X5a", "X5b", "X5c", "X6", "X7", "X8", "X9", "X10", "X11", "X12", "X13"}
+var forced = []string{"X1a", "X1b", "X2", "X3", "X4", "X5a", "X5b", "X5c", "X6", "X7", "X8", "X9", "X10", "X11", "X12", "X13", "X14"}
 
 func run(c *core.Case) {
 	if c.Index < len(forced)*2 {
@@ -281,10 +281,13 @@ type world struct {
 	termAt  atomic.Int64
 	serveAt atomic.Int64 // logical time at which Serve returned
 
-	errText     int          // length (runes) of the <text/> in the peer's stream error / the handler's stream.Error (0: none)
-	faulted     bool         // a write fault was injected on the closing tag
-	faultAt     int          // wire offset at which the transport was made to fail (forced X5*)
-	wireAtClose atomic.Int64 // bytes on the wire when the first Close call returned (-1: none yet)
+	tee           *failingTee  // the session's XML console (nil: none); fails once armed
+	cancelledSend bool         // deadline terminator: a transmit with a context that is over follows SetCloseDeadline
+	noClose       bool         // deadline terminator: the application does not call Close
+	errText       int          // length (runes) of the <text/> in the peer's stream error / the handler's stream.Error (0: none)
+	faulted       bool         // a write fault was injected on the closing tag
+	faultAt       int          // wire offset at which the transport was made to fail (forced X5*)
+	wireAtClose   atomic.Int64 // bytes on the wire when the first Close call returned (-1: none yet)
 }
 
 func newWorld(c *core.Case, o sess.Opts) *world { return newWorldLoop(c, o, true) }
@@ -368,9 +371,30 @@ func (w *world) progress() int64 {
 	return w.h.clock.Load() + int64(w.p.Lib.WrittenLen()) + int64(w.p.Peer.WrittenLen())
 }
 
+// failingTee is an XML console that takes everything until it is armed and
+// fails every write afterwards.
+type failingTee struct {
+	fail atomic.Bool
+	n    atomic.Int64
+}
+
+var errTee = errors.New("verif: the XML console is gone")
+
+func (t *failingTee) Write(p []byte) (int, error) {
+	if t.fail.Load() {
+		return 0, errTee
+	}
+	t.n.Add(int64(len(p)))
+	return len(p), nil
+}
+
 // terminate makes the peer end the stream in the chosen way.
 func (w *world) terminate(kind string) {
 	w.termAt.Store(w.h.clock.Add(1))
+	if w.tee != nil {
+		w.tee.fail.Store(true)
+		w.c.Count("sessions_whose_xml_console_fails_at_close_time", 1)
+	}
 	switch kind {
 	case "peer-close":
 		w.p.ClosePeer()
@@ -398,6 +422,21 @@ func (w *world) terminate(kind string) {
 		e := w.h.begin("app", "setclosedeadline", "")
 		err := w.p.S.SetCloseDeadline(time.Now().Add(50 * time.Millisecond))
 		w.h.end(e, fmt.Sprint(err), "")
+		if w.cancelledSend {
+			// a transmit whose context is already over, after the close deadline
+			// was set: whatever it does to the transport's deadlines on behalf of
+			// its own context, the close deadline must still end Serve
+			ctx, cancel := context.WithCancel(context.Background())
+			cancel()
+			e = w.h.begin("app", "transmit:Send", "dl-cancelled")
+			err = entries[0].do(ctx, w.p.S, "dl-cancelled")
+			out, d := classifyErr(err)
+			w.h.end(e, out, d)
+			w.c.Count("cancelled_transmits_after_setclosedeadline", 1)
+		}
+		if w.noClose {
+			return // the application only waits for the deadline
+		}
 		e = w.h.begin("app", "close", "")
 		err = w.p.S.Close()
 		w.closed()
@@ -473,7 +512,9 @@ func (w *world) finish(term string, smp *sample) {
 	if stt&xmpp.InputStreamClosed == 0 || stt&xmpp.OutputStreamClosed == 0 {
 		c.Violate("close:state", "after Serve returned (terminator %s) State()=%v lacks a closed bit", term, stt)
 	}
-	func() {
+	for n := 1; n <= 2; n++ {
+		// twice: the first reader that finds the input closed must not leave
+		// anything behind that blocks the second
 		done := make(chan error, 1)
 		go func() {
 			rc := w.p.S.TokenReader()
@@ -481,18 +522,55 @@ func (w *world) finish(term string, smp *sample) {
 			rc.Close()
 			done <- err
 		}()
-		select {
-		case err := <-done:
-			if !errors.Is(err, xmpp.ErrInputStreamClosed) {
-				c.Violate("close:read-after-close", "TokenReader().Token() after Serve returned: %v, want ErrInputStreamClosed", err)
+		ch := make(chan struct{})
+		var rerr error
+		go func() { rerr = <-done; close(ch) }()
+		if fin, quiet := stall.AwaitQuiet(ch, w.progress, 5*time.Second, 60*time.Second); fin {
+			if !errors.Is(rerr, xmpp.ErrInputStreamClosed) {
+				c.Violate("close:read-after-close", "TokenReader().Token() (reader %d) after Serve returned: %v, want ErrInputStreamClosed", n, rerr)
 			}
-		case <-time.After(20 * time.Second):
+		} else if quiet {
+			// no other actor is left: nobody can release what the reader waits for
+			c.Violate(fmt.Sprintf("close:read-after-close:reader-%d-blocks", n), "reader %d obtained after Serve returned neither fails nor returns and the system is quiescent", n)
+			break
+		} else {
 			c.Inconclusive("TokenReader after Serve did not return")
+			break
 		}
-	}()
+		c.Count("readers_after_serve_returned", 1)
+	}
+	if c.Index%2 == 0 {
+		// a second Serve on the session (an application that retries): whatever
+		// it returns, it returns, and writes nothing
+		if dl := w.p.S.SetCloseDeadline(time.Now().Add(time.Hour)); dl != nil {
+			c.Notef("SetCloseDeadline after Serve returned: %v", dl)
+		}
+		ch := make(chan struct{})
+		var serr error
+		go func() {
+			defer close(ch)
+			c.Guard("Serve (second)", func() { serr = w.p.S.Serve(nil) })
+		}()
+		if fin, quiet := stall.AwaitQuiet(ch, w.progress, 5*time.Second, 60*time.Second); fin {
+			c.Count("second_serve_returned", 1)
+			if serr == nil {
+				c.Violate("close:second-serve:nil", "a second Serve on a session whose streams are closed returned nil")
+			}
+		} else if quiet {
+			c.Violate("close:second-serve:blocks", "a second Serve on a session whose streams are closed does not return and the system is quiescent")
+		} else {
+			c.Inconclusive("second Serve did not return")
+		}
+	}
 	// Serve's return value per terminator class
 	c.Count("serve_returned:"+term, 1)
-	switch term {
+	judged := term
+	if w.tee != nil {
+		// the write of the closing tag reports the console's failure: Serve may
+		// return that error whatever ended the stream
+		judged = "console-failed"
+	}
+	switch judged {
 	case "peer-close":
 		if serveErr != nil {
 			c.Violate("close:serve:peer-close", "peer closed its stream cleanly but Serve returned %v", serveErr)
@@ -733,6 +811,15 @@ func runStress(c *core.Case) {
 	r := c.Rand
 	term := terminators[r.Intn(len(terminators))]
 	o := sess.Opts{S2S: r.Intn(3) == 0, Layered: r.Intn(3) == 0}
+	var tee *failingTee
+	if c.Index%5 == 2 {
+		// negotiated by the library's default negotiator with an "XML console":
+		// every write of the session, the closing tag included, goes to the
+		// connection and then to the console, which fails from the moment the
+		// session is being closed (a log file that went away)
+		tee = &failingTee{}
+		o = sess.Opts{S2S: o.S2S, Default: true, TeeOut: tee}
+	}
 	nClosers := r.Intn(4)
 	if term == "deadline" && nClosers == 0 {
 		nClosers = 1
@@ -747,6 +834,10 @@ func runStress(c *core.Case) {
 	}
 	if r.Intn(3) == 0 {
 		w.errText = []int{40, 2100, 4500}[r.Intn(3)]
+	}
+	w.tee = tee
+	if term == "deadline" {
+		w.cancelledSend = r.Intn(2) == 0
 	}
 	var wcount atomic.Int64
 	w.p.Lib.SetAfterWrite(func(int) {
@@ -1321,6 +1412,11 @@ func runForced(c *core.Case, id string, s2s bool) {
 		cancel()
 		smp.Senders = 1
 		c.Count("cancelled_sender_deadline_scenarios", 1)
+	case "X14": // the close deadline is set, then a transmit whose context is over, and no Close at all: the deadline alone must end Serve
+		w.cancelledSend, w.noClose = true, true
+		term = "deadline"
+		smp.Terminator = term
+		c.Count("close_deadline_then_cancelled_transmit_scenarios", 1)
 	case "X12", "X13": // the application has closed its side; then the session ends with a stream error (X12: the peer's, X13: the handler's) whose encoding is larger than the output buffer
 		w.errText = 2300 + 400*(c.Index%3)
 		<-closeAsync("closer1")
@@ -1369,7 +1465,7 @@ func Prop() *core.Prop {
 		Level: core.Exploration,
 		Race:  true,
 		Units: "porcupine_ops", // operations (close, transmit, Serve) placed by the checker
-		Rule:  "the first 32 cases are the forced scenarios X1a/X1b/X2/X3/X4 (orderings at the close.enter / senderr.enter yield points) X5a/X5b/X5c (the transport fails, entirely, after 5 bytes, or with a short write of 5 bytes, exactly on the write of the closing tag) and X6 (a transport with synchronous writes in both directions: Close blocked on the closing tag while the peer sends two more stanzas before reading) and X7 (a sender's context ends during its write and the write-deadline helper is parked at wdl.armed while the handler answers a peer IQ) and X8 (SetCloseDeadline replaces the input context while the serve loop is parked at serve.loop holding the old one) and X9 (a Close and the serve loop's default reply to an unanswered IQ both queue behind a token writer the application holds in mid-element) and X10 (a short close deadline replaced by a distant one, traffic past the first instant, then the peer's closing tag) and X11 (transmits whose contexts are over queue behind a Close that is blocked writing the closing tag to a slow peer) and X12/X13 (the application closes; then the session ends with the peer's / the handler's stream error whose text is larger than every buffer between the session and the connection), each c2s and s2s; the rest are stress histories on one served session (a third of them on a layered transport: a plain io.ReadWriter around the connection installed during negotiation, deadlines proxied): 0-3 closers (1-3 Close calls each, sometimes SetCloseDeadline), 1-4 senders drawing from 13 transmit entry points, peer-injected IQs answered by the handler or left to the session's default reply, and one terminator from {peer close tag, peer stream error, handler error, silence + 50 ms close deadline, end of the connection without a closing tag} issued early or after the actors, stream errors in a third of the histories with a text of 40 to 4500 two-byte runes; afterwards every entry point is called once more on the closed session. Oracles: closing-tag count and bytes after it on the peer side; porcupine check of the recorded history against a two-state closable-log model; marker-on-wire side conditions; State()/TokenReader after Serve; Serve's return per terminator. Distinct = (kind, terminator, closers, some transmit overlapped a Close?, some transmit began after a Close returned?, tags) and the observed interleaving of each history: the logical-clock order of the call/return boundaries of every explicit Close (C) and of Serve's own shutdown (S), with the transmits classified as before / overlapping / after the closes and by outcome (signatures order/…).",
+		Rule:  "the first 30 cases are the forced scenarios X1a/X1b/X2/X3/X4 (orderings at the close.enter / senderr.enter yield points) X5a/X5b/X5c (the transport fails, entirely, after 5 bytes, or with a short write of 5 bytes, exactly on the write of the closing tag) and X6 (a transport with synchronous writes in both directions: Close blocked on the closing tag while the peer sends two more stanzas before reading) and X7 (a sender's context ends during its write and the write-deadline helper is parked at wdl.armed while the handler answers a peer IQ) and X8 (SetCloseDeadline replaces the input context while the serve loop is parked at serve.loop holding the old one) and X9 (a Close and the serve loop's default reply to an unanswered IQ both queue behind a token writer the application holds in mid-element) and X10 (a short close deadline replaced by a distant one, traffic past the first instant, then the peer's closing tag) and X11 (transmits whose contexts are over queue behind a Close that is blocked writing the closing tag to a slow peer) and X12/X13 (the application closes; then the session ends with the peer's / the handler's stream error whose text is larger than every buffer between the session and the connection) and X14 (SetCloseDeadline, then a transmit whose context is already over, no Close: the deadline alone ends Serve), each c2s and s2s; the rest are stress histories on one served session (a third of them on a layered transport: a plain io.ReadWriter around the connection installed during negotiation, deadlines proxied; a fifth negotiated by the library's default negotiator with an XML console (TeeOut) that fails from the moment the stream is being ended): 0-3 closers (1-3 Close calls each, sometimes SetCloseDeadline), 1-4 senders drawing from 13 transmit entry points, peer-injected IQs answered by the handler or left to the session's default reply, and one terminator from {peer close tag, peer stream error, handler error, silence + 50 ms close deadline, end of the connection without a closing tag} issued early or after the actors, stream errors in a third of the histories with a text of 40 to 4500 two-byte runes; afterwards every entry point is called once more on the closed session. Oracles: closing-tag count and bytes after it on the peer side; porcupine check of the recorded history against a two-state closable-log model; marker-on-wire side conditions; State()/TokenReader after Serve; Serve's return per terminator. Distinct = (kind, terminator, closers, some transmit overlapped a Close?, some transmit began after a Close returned?, tags) and the observed interleaving of each history: the logical-clock order of the call/return boundaries of every explicit Close (C) and of Serve's own shutdown (S), with the transmits classified as before / overlapping / after the closes and by outcome (signatures order/…).",
 		Assumptions: []string{
 			"a transmit that overlaps a Close in time may land on either side of the closing tag",
 			"handler replies are buffered until the handler returns, so their on-wire side condition is not demanded; their error value is",
@@ -1383,7 +1479,7 @@ func Prop() *core.Prop {
 			return len(forced)*2 + 70
 		},
 		Run: run,
-		Require: []string{"forced_scenarios", "stress_histories", "closed_then_large_stream_error_scenarios", "terminators_with_a_stream_error_larger_than_the_output_buffer", "close_under_write_fault", "close_returns_with_wire_snapshot", "synchronous_transport_closes", "cancelled_sender_deadline_scenarios", "close_deadline_during_loop_scenarios", "close_vs_default_reply_scenarios", "close_deadline_extended_scenarios", "transmits_queued_behind_blocked_close_scenarios", "unanswered_iqs_injected", "x9_close_queued_behind_writer", "x9_default_reply_queued_behind_writer", "layered_transport_histories", "layered_transport_close_deadline", "yield:close.enter", "yield:senderr.enter", "transmits_overlapping_a_close",
+		Require: []string{"forced_scenarios", "stress_histories", "closed_then_large_stream_error_scenarios", "close_deadline_then_cancelled_transmit_scenarios", "cancelled_transmits_after_setclosedeadline", "sessions_whose_xml_console_fails_at_close_time", "readers_after_serve_returned", "second_serve_returned", "terminators_with_a_stream_error_larger_than_the_output_buffer", "close_under_write_fault", "close_returns_with_wire_snapshot", "synchronous_transport_closes", "cancelled_sender_deadline_scenarios", "close_deadline_during_loop_scenarios", "close_vs_default_reply_scenarios", "close_deadline_extended_scenarios", "transmits_queued_behind_blocked_close_scenarios", "unanswered_iqs_injected", "x9_close_queued_behind_writer", "x9_default_reply_queued_behind_writer", "layered_transport_histories", "layered_transport_close_deadline", "yield:close.enter", "yield:senderr.enter", "transmits_overlapping_a_close",
 			"transmits_begun_after_a_close_returned", "late_transmits", "porcupine_checks",
 			"serve_returned:peer-close", "serve_returned:stream-error", "serve_returned:handler-error", "serve_returned:deadline", "serve_returned:transport-eof"},
 		ReplayRepeats: 10,
